@@ -689,8 +689,8 @@ static std::vector<HSearch> searches(bool thorough)
   std::vector<HSearch> v;
   auto G = [](int D, int R, int span, int nz, int nxy, int vxy = 100, int zd = 2) { Geo g; g.D = D; g.R = R; g.span = span; g.nz = nz; g.nxy = nxy; g.vxy = vxy; g.zd = zd; return g; };
   auto add = [&](int sym, Geo g0, Geo g1, Geo g2, int depth) { HSearch s; s.id = (int)v.size(); s.sym = sym; s.g[0] = g0; s.g[1] = g1; s.g[2] = g2; s.depth = depth;
-    // quick: gets + setters to depth 3 from a matrix caching basic bins only / all bins, first search only; thorough: every search, full alphabet to depth 4 (contains the former) and the all-bins variant to depth 3
-    s.full_depth = thorough ? 4 : 0; s.setters_depth = (thorough || v.empty()) ? 3 : 0; s.setters_depth_all_bins = (thorough || v.empty()) ? 3 : 0;
+    // quick: gets + setters to depth 3 from a matrix caching basic bins only / all bins, first search only; thorough: gets + setters to depth 3 in both cache modes for every search, and the full alphabet to depth 4 for the first two searches (a full set_up costs ~4 ms: FastErf table)
+    s.full_depth = (thorough && v.size() < 2) ? 4 : 0; s.setters_depth = (thorough || v.empty()) ? 3 : 0; s.setters_depth_all_bins = (thorough || v.empty()) ? 3 : 0;
     v.push_back(s); };
   const int d = thorough ? 5 : 4;
   // G1: other projection data (more rings) ; G2: same projection data and voxel size, other number of planes / xy size
